@@ -54,4 +54,8 @@ Definition emit_error_status (reading : bool) (e : err_class) : N :=
   if reading then match e with EStatus c => c | ECoded c => c | EOther => sc_normal end
   else sc_going_away.
 
+(* emitError: reason = append(sendCode.Bytes(), sendErr.Error()...), handed to writeClose, which cuts it *)
+Definition error_close_body (reading : bool) (e : err_class) (text : list N) : list N :=
+  truncate_body (status_bytes (emit_error_status reading e) ++ text).
+
 End Close.
